@@ -242,4 +242,6 @@ def run_case(case):
 
 
 if __name__ == "__main__":
+    gc.collect()
+    gc.freeze()  # start-up objects out of the collector's way: gc.collect() runs several times per case
     implenv.write_results([run_case(c) for c in implenv.read_cases()])
